@@ -99,7 +99,10 @@ type Sim struct {
 	TimeDen       int
 	TimeLadder    []time.Duration
 	TimeBudget    int // at most this many "time first" decisions per run
-	timeFirsts    int
+	// LateStarts: a goroutine that was just started gets to run only when no
+	// other task can (the runtime is free to start it arbitrarily late)
+	LateStarts bool
+	timeFirsts int
 
 	Verbose bool
 	// KeepTrace records scheduling decisions next to boundary events for the
@@ -649,6 +652,19 @@ func (s *Sim) Step(idle time.Duration) StepResult {
 				return Idle
 			}
 			continue
+		}
+		if s.LateStarts {
+			// freshly started goroutines run only when nothing else can
+			var others []*waiter
+			for _, w := range ready {
+				if w.site != "start" {
+					others = append(others, w)
+				}
+			}
+			if len(others) > 0 && len(others) < len(ready) {
+				ready = others
+				s.Stat("sched_late_start")
+			}
 		}
 		sort.SliceStable(ready, func(i, j int) bool {
 			if ready[i].key != ready[j].key {
